@@ -35,6 +35,7 @@ var targets = []struct {
 	names []string
 }{
 	{"utils.go", []string{"MinInt", "MaxInt", "SumInts", "ProdInts", "IsMonotonicInts", "Ltoi", "Itol", "CheckSlice", "SliceDetails"}},
+	{"mathutils_go.go", []string{"divmod"}},
 	{"shape.go", []string{"Shape.TotalSize", "Shape.CalcStrides", "Shape.CalcStridesColMajor", "Shape.Eq", "Shape.Clone",
 		"Shape.IsScalar", "Shape.IsScalarEquiv", "Shape.IsVector", "Shape.IsColVec", "Shape.IsRowVec", "Shape.IsVectorLike",
 		"Shape.IsMatrix", "Shape.Dims", "Shape.DimSize", "Shape.S", "Shape.Repeat", "Shape.Concat"}},
@@ -1535,6 +1536,11 @@ func (fi *fnInfo) signature(fset *token.FileSet) (err string) {
 		}
 	}()
 	s := &sig{lean: strings.Replace(fi.key, ".", "_", 1)}
+	if fi.key == "divmod" {
+		// `divmod` itself is the primitive the other functions call (GoLib.lean: one meaning for both builds); the body of
+		// the pure-Go build's version is translated under a name of its own and proved to be that meaning
+		s.lean = "divmod_go"
+	}
 	for _, fl := range []*ast.FieldList{fi.fd.Recv, fi.fd.Type.Params} {
 		if fl == nil {
 			continue
